@@ -12,12 +12,12 @@ PROPS = ["C02_convergence.v", "C01_matrix.v"]
 T_END = 0.5
 
 
-def ladder(kind, ratio, nxs, table=None):
+def ladder(kind, ratio, nxs, table=None, grid="quadratic"):
     """errors of field (max over nodes, relative to u_i - u_f) and of both recoveries at T_END"""
     out = []
     for nx in nxs:
         nt = 4 * nx * nx // 25 + 10
-        t = np.linspace(0, np.sqrt(T_END), nt) ** 2
+        t = np.linspace(0, np.sqrt(T_END), nt) ** 2 if grid == "quadratic" else np.linspace(0, T_END, nt)
         if kind == "ideal":
             c = dict(kind="ideal", pi=8000.0, pf=8000.0 * ratio, nx=nx, times=t)
         else:
@@ -82,10 +82,11 @@ def run(ctx):
     # ---------------- pressure-dependent diffusivity: independent method-of-lines reference
     tables = [("shipped", rescorr.shipped_gas(stride=6))] + ([] if ctx.quick else [("ideal-gas", rescorr.synth_table("ideal", 80)), ("haynesville", rescorr.shipped_haynesville(stride=8))])
     for tname, tb in tables:
+      for grid in ("quadratic", "uniform"):   # equal steps too: a coefficient frozen between equal steps must show
         for ratio in ((0.2,) if ctx.quick else (0.05, 0.5, 0.9)):
-            lad = ladder("single", ratio, nxs, tb)
+            lad = ladder("single", ratio, nxs, tb, grid)
             ev += len(lad)
-            inp = dict(kind="single", table=tname, p_frac_over_p_initial=ratio, nx_ladder=list(nxs), t_end=T_END)
+            inp = dict(kind="single", table=tname, time_grid=grid, p_frac_over_p_initial=ratio, nx_ladder=list(nxs), t_end=T_END)
             if any("field" not in r for r in lad):
                 bad("simulation fails on the refinement ladder", inp, [r.get("error") for r in lad])
                 continue
@@ -98,7 +99,7 @@ def run(ctx):
             for r in lad:
                 ex = np.interp(np.minimum(r["x"], 2 - r["x"]), np.concatenate([[0.0], xr]), np.concatenate([[r["uf"]], ur]))
                 ferr.append(np.abs(r["field"] - ex).max() / (r["ui"] - r["uf"]))
-            judge(f"{tname} r={ratio}", ferr, inp, 3.5, "pseudopressure field vs method-of-lines reference")
+            judge(f"{tname} {grid} r={ratio}", ferr, inp, 3.5, "pseudopressure field vs method-of-lines reference")
     ctx.cov.update(evaluations=ev, distinct_nontrivial=len(report), ladders=report[:40],
                    rule="refinement ladders (nx, nt) -> (2 nx, ~4 nt) at t = 0.5: ideal reservoir and a constant-diffusivity table against the closed-form "
                         "Fourier series (field at the nodes and flux recovery) for p_frac/p_initial from 0.0125 to 0.99875; pressure-dependent tables against an "
